@@ -273,7 +273,8 @@ class Kernel:
         msg["parent_header"] = decode(msg_frames[1])
         msg["metadata"] = decode(msg_frames[2])
         msg["content"] = decode(msg_frames[3])
-        check_sig = self.msg_sign(msg_frames)
+        # only header, parent_header, metadata and content are signed; extra buffer frames are not
+        check_sig = self.msg_sign(msg_frames[:4])
         if check_sig != m_signature:
             _LOGGER.error(
                 "signature mismatch: check_sig=%s, m_signature=%s, wire_msg=%s",
